@@ -323,6 +323,39 @@ func runC06(c *Ctx) {
 		foldsAllMiddlewares(c, "C06-R2", sh)
 	}
 
+	// the dispatchers treat the registered route as read-only: composing the chain by rewriting route.Handler /
+	// route.Middlewares on the first request opens a window in which a concurrent request sees neither
+	{
+		var disp []*ssa.Function
+		if ch := c.fn(glyphCmd, "createHandler"); ch != nil {
+			for _, cl := range innerClosures(ch) {
+				disp = append(disp, cl)
+			}
+		}
+		if sh := c.fn(serverPkg, "Handler.ServeHTTP"); sh != nil {
+			disp = append(disp, withAnon(sh)...)
+		}
+		nW := 0
+		for _, fn := range disp {
+			k := 0
+			eachInstr(fn, func(_ *ssa.BasicBlock, _ int, ins ssa.Instruction) {
+				st, ok := ins.(*ssa.Store)
+				if !ok {
+					return
+				}
+				nt, f, ok := fieldOf(st.Addr)
+				if !ok || nt == nil || nt.Obj().Pkg() == nil || nt.Obj().Pkg().Path() != serverPath || nt.Obj().Name() != "Route" || isFreshAlloc(st.Addr) {
+					return
+				}
+				k++
+				nW++
+				c.ob("C06-R2", fnKey(fn)+"#dispatcher-does-not-modify-route:"+f+"-"+itoa(k), st.Pos(), false, "the dispatcher assigns Route."+f+" of the registered route while serving a request (no synchronisation; other requests for the same route run concurrently): between clearing the middleware list and publishing the wrapped handler a request finds no middlewares and the bare handler, so a `+ auth(...)` route runs its body without any credential")
+			})
+		}
+		c.Sites["C06-R2#dispatcher-writes-to-Route"] = nW
+		c.ob("C06-R2", glyphCmd+"#dispatchers-leave-registered-routes-unmodified", token.NoPos, len(disp) > 0, "no dispatcher found")
+	}
+
 	// ---- R3 fail closed at construction
 	c.rule("C06-R3", "GRD: in cmd/glyph.authMiddleware `return nil` only under auth==nil; server.BasicAuthMiddleware(map{secret}) is reachable only where secret != \"\" is established; apiKeyMiddleware(keys) only where len(keys) != 0 is established; every other exit returns denyAllMiddleware(…); routeMiddlewares appends the auth middleware whenever it is non-nil")
 	if am := c.mustFn("C06-R3", glyphCmd, "authMiddleware"); am != nil {
